@@ -191,11 +191,41 @@ nd::harnesses! {
             assert!(ctx_live() == 1);
         }
         unsafe {
-            assert!(CTX_SEEN_IN_CALL >= 2, "context alive (beyond the observer) while the by-value method runs");
-            assert!(CTX_SEEN_AT_SELF_DROP >= 2, "... and while the consumed value is dropped inside the callee");
+            // observer + the reference the callee received by value + the caller's own clone
+            assert!(CTX_SEEN_IN_CALL >= 3, "the caller holds its own clone of the context while the by-value method runs");
+            assert!(CTX_SEEN_AT_SELF_DROP >= 3, "... and while the consumed value is dropped inside the callee");
         }
         drop(base);
         assert!(ctx_live() == 0);
+    }
+
+    /// By-value method returning `Result<wrapped object, E>`: on Err nothing carries the context out, so
+    /// only the caller's clone keeps it alive while the callee (which owns the reference it received by
+    /// value) is still running: the implementor must see observer + its own + the caller's = 3.
+    #[kani::unwind(4)]
+    fn c07_consuming_call_returning_wrapped_result() {
+        reset();
+        ctx_reset();
+        let v: u32 = nd::any();
+        let fail: bool = nd::any();
+        nd::cover!(fail, "Err: nothing carries the context out");
+        nd::cover!(!fail, "Ok: the result holds the context");
+        let base = Ctx::new();
+        let obj = trait_obj!((P::new(v), base.clone()) as TryMaker);
+        unsafe { IN_CONSUMING_CALL = true; CTX_SEEN_IN_CALL = -1; CTX_SEEN_AT_SELF_DROP = -1; }
+        let r = obj.try_leaf(fail);
+        unsafe { IN_CONSUMING_CALL = false; }
+        match &r {
+            Ok(l) => assert!(!fail && l.val() == v ^ 5 && ctx_live() == 2),
+            Err(e) => assert!(fail && *e == v as u8 && ctx_live() == 1),
+        }
+        unsafe {
+            assert!(CTX_SEEN_IN_CALL >= 3, "the caller holds its own clone of the context while the by-value method runs");
+            assert!(CTX_SEEN_AT_SELF_DROP >= 3, "... and while the consumed value is destroyed inside the callee");
+        }
+        drop(r);
+        assert!(ctx_live() == 1);
+        drop(base);
     }
 
     /// Clone (extension trait), `Self` return and casts of a group with a context.
